@@ -172,9 +172,10 @@ int32_t jls_wr_source_def(struct jls_wr_s * self, const struct jls_source_def_s 
     chunk->hdr.payload_length = payload_length;
     chunk->offset = jls_raw_chunk_tell(core->raw);
 
-    // write
-    ROE(jls_core_update_item_head(core, &core->source_head, chunk));
+    // write the chunk, then link it (as every other list does): the header cached in
+    // source_head must be the one on disk, including payload_prev_length.
     ROE(jls_raw_wr(core->raw, &chunk->hdr, buf->start));
+    ROE(jls_core_update_item_head(core, &core->source_head, chunk));
     return 0;
 }
 
